@@ -415,3 +415,11 @@ pub fn str_replace_re_all(s1: &SmtString, r: RegLan, s2: &SmtString) -> SmtStrin
     x.extend_from_slice(&s1[i..]);
     x.into()
 }
+
+///
+/// Verification hook: run `f` on the thread-local manager used by the functions of this module
+///
+#[cfg(aws_smt_strings_verif)]
+pub fn verif_with_manager<R>(f: impl FnOnce(&mut ReManager) -> R) -> R {
+    MANAGER.with(|m| f(&mut m.borrow_mut()))
+}
